@@ -141,8 +141,20 @@ func c07History(c *h.Ctx, id string, r *rand.Rand) {
 	withPit := r.Intn(2) == 0
 	var pend []table.PitEntry
 	ticks := r.Intn(2) == 0
+	type heldHit struct {
+		name       string
+		live, snap []byte
+		step       int
+	}
+	var held []heldHit
 	for step := 0; step < nOps; step++ {
 		clock++
+		for _, hh := range held {
+			if !bytes.Equal(hh.live, hh.snap) {
+				fail("C07:returned-bytes-change-later", fmt.Sprintf("the bytes a lookup returned for %s at operation %d have changed by operation %d (an answer waiting in a face queue would go out corrupted)", hh.name, hh.step, len(hist)), nil)
+				return
+			}
+		}
 		if ticks && !withPit && r.Intn(5) == 0 {
 			// the table's periodic maintenance call (the forwarding thread makes it every 100 ms or so);
 			// it must not change what the cache holds or answers
@@ -310,6 +322,12 @@ func c07History(c *h.Ctx, id string, r *rand.Rand) {
 					d, w, err := got.Copy()
 					if err == nil && d != nil {
 						gname, gwire = d.NameV.Clone(), append([]byte{}, w...)
+						// the forwarder keeps the returned bytes (they become the outgoing packet, which
+						// waits in a face queue): remember the slice itself next to a private copy
+						held = append(held, heldHit{name: gname.String(), live: w, snap: gwire, step: len(hist)})
+						if len(held) > 6 {
+							held = held[1:]
+						}
 					}
 				}
 			}); pi != nil {
